@@ -112,6 +112,33 @@ def IsForNet (a : Addr) (net : Net) : Bool :=
   | .legacySh _ id => id = net.shID
   | .pubKey _ _ id => id = net.pkhID
 
+/-- `ConvertSlpToCashAddress` / `ConvertCashToSlpAddress`: only the two 20-byte cash kinds are convertible -/
+def ConvertSlpToCash (a : Addr) (net : Net) : Except Err Addr :=
+  match a with
+  | .pkh h _ => newPkh h net.cashPrefix
+  | .sh h _ => newSh h net.cashPrefix
+  | _ => .error .other
+
+def ConvertCashToSlp (a : Addr) (net : Net) : Except Err Addr :=
+  match a with
+  | .pkh h _ => newPkh h net.slpPrefix
+  | .sh h _ => newSh h net.slpPrefix
+  | _ => .error .other
+
+/-- `paramsFromNetID`: the cash prefix chosen for a legacy id (first match in the Go switch; testnet3 shadows
+    regtest/testnet4/chipnet, which share its ids; anything unknown is mainnet) -/
+def prefixFromNetID (id : UInt8) : Bytes :=
+  if id = testNet3.pkhID then testNet3.cashPrefix
+  else if id = simNet.pkhID then simNet.cashPrefix
+  else if id = testNet3.shID then testNet3.cashPrefix
+  else if id = simNet.shID then simNet.cashPrefix
+  else mainNet.cashPrefix
+
+/-- `(*AddressPubKey).AddressPubKeyHash` -/
+def AddressPubKeyHash : Addr → Option Addr
+  | a@(.pubKey _ _ id) => some (.pkh ((X.hash160 (serialize X a) ++ List.replicate 20 0).take 20) (prefixFromNetID id))
+  | _ => none
+
 def lowerASCII (s : Bytes) : Bytes := s.map fun c => if 65 ≤ c ∧ c ≤ 90 then c + 32 else c
 
 /-- `strings.EqualFold(a, b)` for an ASCII `b` of the same byte length as `a`
